@@ -2,6 +2,5 @@
 use hcommon::*;
 
 pub fn run(args: &Args) {
-    eprintln!("hcore: {} not implemented yet", args.prop);
-    std::process::exit(2);
+    super::c01::run(args)
 }
